@@ -1,6 +1,6 @@
 (** * C05 — concrete dependencies: the nested entrait attribute, and an implementation for the concrete type *)
 From Coq Require Import List String Ascii Bool.
-From Entrait Require Import Tok Syn Opts Split Convert Codegen Expand Proj Proj2 Proj3 Examples.
+From Entrait Require Import Tok Syn Opts Split Convert Codegen Expand Proj Proj2 Proj3 ProjSide Examples.
 From Entrait.Proofs Require Import Base Shapes NonVac PC05.
 Import ListNotations.
 Local Open Scope string_scope.
@@ -48,9 +48,16 @@ Print Assumptions c05_kind_agrees.
 
 (** the predicate the checker evaluates holds of every model expansion, except when the function's own
     first non-lifetime generic parameter prints with a leading [EntraitT] ([c05_clash]) ... *)
-Theorem c05_view_sound : forall v attr i items,
+Theorem c05_view_conditional : forall v attr i items,
   expand_items v attr i = Ok items -> c05_clash i = false -> good (view_C05 (mkCtx v attr i) items).
 Proof. exact c05_view_partial. Qed.
+Print Assumptions c05_view_conditional.
+
+(** the guarded predicate the checker runs ([view_C05g c items := if c05_clash (x_input c) then na else view_C05 c items])
+    holds of every model expansion, for all inputs *)
+Theorem c05_view_sound : forall v attr i items,
+  expand_items v attr i = Ok items -> good (view_C05g (mkCtx v attr i) items).
+Proof. exact c05_view. Qed.
 Print Assumptions c05_view_sound.
 
 (** ... which no function without a type parameter named [EntraitT] does *)
@@ -60,7 +67,7 @@ Theorem c05_no_clash : forall h s body,
 Proof. exact no_entrait_t_no_clash. Qed.
 Print Assumptions c05_no_clash.
 
-(** without that side condition the predicate is refuted by
+(** the unguarded predicate is refuted by
     [#[entrait(Foo)] fn foo<EntraitT>(deps: &App, x: EntraitT) {}] (the predicate takes the user's parameter for the macro's) *)
 Theorem c05_view_unrestricted_refuted :
   exists v attr i items, expand_items v attr i = Ok items /\ ~ good (view_C05 (mkCtx v attr i) items).
@@ -68,6 +75,6 @@ Proof. exact c05_view_refuted. Qed.
 Print Assumptions c05_view_unrestricted_refuted.
 
 Example c05_nonvacuous :
-  forallb (nonvacuous view_C05) [ex_fn; ex_fn_conc; ex_fn_nodeps; ex_fn_export] = true.
+  forallb (nonvacuous view_C05g) [ex_fn; ex_fn_conc; ex_fn_nodeps; ex_fn_export] = true.
 Proof. vm_compute. reflexivity. Qed.
 Print Assumptions c05_nonvacuous.
